@@ -984,12 +984,18 @@ impl WorldC {
                     match t.last_status.as_str() {
                         "Passed" => {
                             // an authorised caller
+                            // an authorised caller that can actually sign (a user, not a contract)
+                            let member_user: Option<String> = self.cur_members.keys().find(|k| self.users.contains(*k)).cloned();
+                            let is_member_needed = m.executor.as_ref().map(|v| v.as_str() == Some("member")).unwrap_or(false);
                             let caller = match &m.executor {
                                 Some(v) if v.get("only").is_some() => v["only"].as_str().unwrap().to_string(),
-                                _ => self.cur_members.keys().next().cloned().unwrap_or(self.users[0].clone()),
+                                _ if is_member_needed => match member_user {
+                                    Some(u) => u,
+                                    None => continue,
+                                },
+                                _ => self.users[0].clone(),
                             };
-                            let is_member_needed = m.executor.as_ref().map(|v| v.as_str() == Some("member")).unwrap_or(false);
-                            if is_member_needed && self.cur_members.is_empty() {
+                            if !self.users.contains(&caller) {
                                 continue;
                             }
                             let retry = retryable_payload(self, &t.msgs);
